@@ -42,12 +42,12 @@ ASSUMPTIONS = [
     "selection by explicit engine name and Parallel engines are out of the statement's scope and are only counted",
 ]
 
-N_CASES = {"quick": 800, "thorough": 16000}
+N_CASES = {"quick": 800, "thorough": 10000}
 REQS_PER_CASE = 12
 
 
 def plan(tier, seed):
-    return simple_plan(PROPERTY, tier, seed, N_CASES["quick"], N_CASES["thorough"])
+    return simple_plan(PROPERTY, tier, seed, N_CASES["quick"], N_CASES["thorough"], shards_quick=16)
 
 
 def run_shard(spec, res):
